@@ -2,10 +2,11 @@
 """Manage seeded breakages.
 
   seed.py import <worktree> <PROP>   copy <worktree>/SEED/* to /verif/seeded/<PROP>-<k>/
-  seed.py eval [<seed-id> ...]       for each seed: check that /repo is clean, run the demo
-                                     (must pass), apply the patch, run the demo (must fail),
-                                     run every registered check, undo the patch; the
-                                     outcome is written to seeded/<id>/result.json
+  seed.py eval [<seed-id> ...]       for each seed, on a private scratch copy of /repo's working
+                                     tree (never on /repo): run the demo (must pass), apply the
+                                     patch (rebuilding the extension if C changed), run the demo
+                                     (must fail), run every registered check with --repo <copy>;
+                                     the outcome is written to seeded/<id>/result.json
 """
 import json, os, shutil, subprocess, sys
 
@@ -42,67 +43,78 @@ def claimed():
     return [c["property_id"] for c in m["checks"]]
 
 
-def do_eval(ids):
-    rc, out = sh("git status --porcelain --untracked-files=no", cwd=REPO)
-    if out.strip():
-        sys.exit("/repo has uncommitted changes:\n" + out)
-    for sid in ids:
-        d = os.path.join(SEEDED, sid)
-        res = {"seed": sid}
-        patch = os.path.join(d, "patch.diff")
-        demo = os.path.join(d, "demo.py")
-        rc0, o0 = sh(["/venv/bin/python", demo], cwd=REPO)
-        res["demo_without_patch"] = "pass" if rc0 == 0 else f"FAIL rc={rc0}"
-        rc, o = sh(["git", "apply", "--check", patch], cwd=REPO)
-        if rc != 0:
-            rc, o = sh(["git", "apply", "--3way", patch], cwd=REPO)
-            if rc != 0:
-                res["apply"] = "does not apply: " + o.strip()[-300:]
-                sh(["git", "reset", "-q", "HEAD", "--", "."], cwd=REPO)
-                sh(["git", "checkout", "--", "."], cwd=REPO)
-                sh("git checkout -- . && git reset -q", cwd=REPO)
-                json.dump(res, open(os.path.join(d, "result.json"), "w"), indent=1)
-                print(sid, res)
-                continue
-            sh("git reset -q", cwd=REPO)
-            res["apply"] = "3way"
+def scratch_checkout():
+    """A private copy of /repo's working tree (sources, built extensions, build
+    files; no .git) under a temporary directory: seeds are never applied to /repo."""
+    import tempfile
+    d = tempfile.mkdtemp(prefix="psutil-seed-")
+    for name in os.listdir(REPO):
+        if name in (".git", "build", "dist", ".pytest_cache", "__pycache__"):
+            continue
+        src = os.path.join(REPO, name)
+        if os.path.isdir(src):
+            shutil.copytree(src, os.path.join(d, name), symlinks=True,
+                            ignore=shutil.ignore_patterns("__pycache__", "*.pyc"))
         else:
-            sh(["git", "apply", patch], cwd=REPO)
-            res["apply"] = "clean"
-        try:
-            changed_c = any(l.endswith((".c", ".h")) for l in
-                            sh("git diff --name-only", cwd=REPO)[1].split())
-            if changed_c:
-                sh("/venv/bin/python setup.py build_ext -i", cwd=REPO)
-            rc1, o1 = sh(["/venv/bin/python", demo], cwd=REPO)
-            res["demo_with_patch"] = "fails (as intended)" if rc1 != 0 else "PASSES"
-            res["demo_output"] = o1.strip()[-400:]
-            fired = {}
-            for p in claimed():
-                rcc, oc = sh([os.path.join(VERIF, "check"), p], cwd=VERIF,
-                             timeout=300)
-                if rcc != 0:
-                    lines = [l.strip() for l in oc.splitlines()
-                             if "rule=" in l and "KNOWN" not in l]
-                    fired[p] = {"exit": rcc, "rules": sorted({l.split("rule=")[1].split()[0]
-                                                              for l in lines})[:6],
-                                "first": (lines[0][:200] if lines else oc[:200])}
-            res["checks_fired"] = fired
-            meta = json.load(open(os.path.join(d, "meta.json"))) if os.path.exists(
-                os.path.join(d, "meta.json")) else {}
-            prop = sid.split("-")[0]
-            res["caught_by_own_property"] = prop in fired and fired[prop]["exit"] == 1
-            res["caught"] = any(v["exit"] == 1 for v in fired.values())
-        finally:
-            sh("git checkout -- .", cwd=REPO)
-            if changed_c:
-                sh("/venv/bin/python setup.py build_ext -i", cwd=REPO)
+            shutil.copy2(src, os.path.join(d, name))
+    return d
+
+
+def eval_one(sid):
+    d = os.path.join(SEEDED, sid)
+    res = {"seed": sid}
+    patch = os.path.join(d, "patch.diff")
+    demo = os.path.join(d, "demo.py")
+    s = scratch_checkout()
+    try:
+        rc0, o0 = sh(["/venv/bin/python", demo], cwd=s)
+        res["demo_without_patch"] = "pass" if rc0 == 0 else f"FAIL rc={rc0}"
+        rc, o = sh(["patch", "-p1", "-s", "--no-backup-if-mismatch", "-i", patch], cwd=s)
+        if rc != 0:
+            res["apply"] = "does not apply: " + o.strip()[-300:]
+            return res
+        res["apply"] = "clean"
+        changed_c = any(l.startswith("+++ ") and l.strip().endswith((".c", ".h"))
+                        for l in open(patch, errors="replace"))
+        if changed_c:
+            sh("/venv/bin/python setup.py build_ext -i", cwd=s, timeout=1200)
+        rc1, o1 = sh(["/venv/bin/python", demo], cwd=s)
+        res["demo_with_patch"] = "fails (as intended)" if rc1 != 0 else "PASSES"
+        res["demo_output"] = o1.strip()[-400:]
+        fired = {}
+        env = dict(os.environ, VERIF_SELFTEST="1", VERIF_EVIDENCE_DIR=os.path.join(s, ".evidence"))
+        for p in claimed():
+            q = subprocess.run([os.path.join(VERIF, "check"), p, "--repo", s], cwd=VERIF,
+                               capture_output=True, text=True, timeout=600, env=env)
+            rcc, oc = q.returncode, q.stdout + q.stderr
+            if rcc != 0:
+                lines = [l.strip() for l in oc.splitlines()
+                         if "rule=" in l and "KNOWN" not in l]
+                fired[p] = {"exit": rcc, "rules": sorted({l.split("rule=")[1].split()[0]
+                                                          for l in lines})[:6],
+                            "first": (lines[0][:200] if lines else oc[:200])}
+        res["checks_fired"] = fired
+        prop = sid.split("-")[0]
+        res["caught_by_own_property"] = prop in fired and fired[prop]["exit"] == 1
+        res["caught"] = any(v["exit"] == 1 for v in fired.values())
+        return res
+    finally:
+        shutil.rmtree(s, ignore_errors=True)
         json.dump(res, open(os.path.join(d, "result.json"), "w"), indent=1)
-        print(sid, "caught" if res.get("caught") else "MISSED", res.get("demo_without_patch"),
-              "/", res.get("demo_with_patch"), {k: v["rules"] for k, v in res.get("checks_fired", {}).items()})
-    # restore evidence to the clean-tree state
-    for p in claimed():
-        sh([os.path.join(VERIF, "check"), p], cwd=VERIF)
+
+
+def do_eval(ids):
+    import concurrent.futures as cf
+    jobs = int(os.environ.get("SEED_JOBS", "6"))
+    missed = 0
+    with cf.ThreadPoolExecutor(jobs) as ex:
+        for res in ex.map(eval_one, ids):
+            if not res.get("caught"):
+                missed += 1
+            print(res["seed"], "caught" if res.get("caught") else "MISSED",
+                  res.get("demo_without_patch"), "/", res.get("demo_with_patch", res.get("apply")),
+                  {k: v["rules"] for k, v in res.get("checks_fired", {}).items()}, flush=True)
+    print(f"{len(ids)} seeds, {missed} not caught")
 
 
 if __name__ == "__main__":
